@@ -721,9 +721,6 @@ func (w *MyWorld) ClientWrite(host string, size int64) *WriteRec {
 	case h == nil || !h.Up:
 		rec.Why = "connection refused"
 		return rec
-	case w.isolated[host]:
-		rec.Why = "host unreachable"
-		return rec
 	case h.Offline:
 		rec.Why = "offline_mode"
 		return rec
